@@ -248,6 +248,8 @@ def work(ctx, tier):
             if k < 1 and ctx.shard == 0:
                 ctx.sample({"config": cfg, "macro_ops": [list(o) for o in ops[:30]]})
     ctx.cnt["clock_reads"] += world.hits["mono"]
+    if tier != "quick":
+        common.repo_suite_under_monitors(ctx, "breaker")
 
 
 def conclude(ctx):
